@@ -420,7 +420,7 @@ fn c09(tier: &str) -> PropDef {
     }];
     PropDef {
         level: "exploration",
-        rule: "cores that are empty, single-root, multi-root, with cleared blocks, writer and partially synced replica; a byzantine peer issues create_proof requests with each of block/hash/seek/upgrade absent or with fields from {0,1,2,len-1,len,len+1,2len-1,2len,2len+1,2^20,2^32,2^40-1} and node counts {0,1,2,3,64}, offers structurally arbitrary proofs (random node lists with true/random/zero/short hashes, zero-length upgrades, empty sections, valid/random/empty/short signatures) and the C04 alterations; every call runs under catch_unwind, a poll budget and a wall-clock watchdog. Oracle: the call returns Ok or Err; honest steps interleaved and at the end (append, honest sync, full scans of both nodes) still match the model. distinct = trace hash; non-trivial = every trace (all contain byzantine input); counted as traces with a mutating step.",
+        rule: "cores that are empty, single-root, multi-root, with cleared blocks, writer and partially synced replica; a byzantine peer issues create_proof requests with each of block/hash/seek/upgrade absent or with fields from {0,1,2,len-1,len,len+1,2len-1,2len,2len+1,2^20,2^32,2^40-1} and node counts {0,1,2,3,64}, offers structurally arbitrary proofs (random node lists with true/random/zero/short hashes, zero-length upgrades, empty sections, valid/random/empty/short signatures) and the C04 alterations; every call runs under catch_unwind, a poll budget and a wall-clock watchdog. Oracle: the call returns Ok or Err; honest steps interleaved and at the end (append, honest sync, full scans of both nodes) still match the model. distinct = trace hash; non-trivial = trace with a mutating step and at least one byzantine request/proof.",
         assumptions: vec!["numeric fields stay below 2^40", "a pure CPU loop is only visible to the wall-clock watchdog (120 s per call)"],
         families,
     }
@@ -825,8 +825,108 @@ fn c06(tier: &str) -> PropDef {
     }
 }
 
+fn c15(tier: &str) -> PropDef {
+    let quick = tier == "quick";
+    let shared_case = |spec: crate::c15::SharedSpec| Case { prop: String::new(), family: String::new(), run: 0, body: Body::Shared(spec) };
+    let families = vec![
+        Family {
+            name: "dfs-small",
+            count: if quick { 40 } else { 1500 },
+            make: Box::new(move |seed, idx| {
+                let mut r = Rng::stream(seed, "C15", idx, "dfs");
+                let mut spec = crate::c15::gen_spec(&mut r, idx, true);
+                spec.sched = crate::c15::Sched::Dfs { cap: if quick { 300 } else { 3000 } };
+                shared_case(spec)
+            }),
+        },
+        Family {
+            name: "random",
+            count: if quick { 12_000 } else { 1_500_000 },
+            make: Box::new(move |seed, idx| {
+                let mut r = Rng::stream(seed, "C15", idx / 8, "random");
+                // 8 schedules per workload
+                let mut spec = crate::c15::gen_spec(&mut r, idx / 8, false);
+                spec.sched = crate::c15::Sched::Random { seed: seed ^ idx.wrapping_mul(0x9E37) };
+                shared_case(spec)
+            }),
+        },
+        Family {
+            name: "pct",
+            count: if quick { 6_000 } else { 800_000 },
+            make: Box::new(move |seed, idx| {
+                let mut r = Rng::stream(seed, "C15", idx / 8, "pct");
+                let mut spec = crate::c15::gen_spec(&mut r, idx / 8, false);
+                spec.sched = crate::c15::Sched::Pct { seed: seed ^ idx.wrapping_mul(0x7F4A), d: 1 + (idx % 3) as u32 };
+                shared_case(spec)
+            }),
+        },
+    ];
+    PropDef {
+        level: "exploration",
+        rule: "2-4 tasks x 1-4 calls from {append, append_batch, get, has, info, create_proof (block / upgrade), missing_nodes, clear through the public mutex, verify_and_apply_proof of pre-made honest proofs on a replica} on one SharedCore over a SimDisk that returns Pending once before every storage operation; the poll order chosen by the scheduler is the schedule (depth-first enumeration of all schedules with a cap for 2 tasks x <= 2 calls, seeded random, PCT with 1-3 priority change points). Invoke/return stamps come from the executor's global event sequence number. Oracle: Wing-Gong search for a sequential order that respects real-time precedence and reproduces every result on sequential models (list model for a writer, (length, held) for a replica; a created upgrade proof must carry the signature of the length at its linearisation point, verified with the independent Merkle reference); direct judges: append outcomes cover 0..length exactly once and each block holds the bytes of the append whose outcome implies its index; deadlock, panic and step-budget overrun are violations. distinct = distinct schedule (task id sequence) hash per workload; non-trivial = the schedule preempted a task that was still runnable at least once.",
+        assumptions: vec!["one OS thread: async-lock and Arc are trusted; data races are excluded by &mut + the mutex, the residual risk is lock-scope bugs", "histories are at most 16 operations"],
+        families,
+    }
+}
+
+fn c14(tier: &str) -> PropDef {
+    use crate::c14::{Arm, ConfigSpec};
+    use crate::disk::Backend;
+    let quick = tier == "quick";
+    let mk = |seed: u64, idx: u64, with_disk: bool| {
+        let mut r = Rng::stream(seed, "C14", idx, if with_disk { "disk" } else { "mem" });
+        let mut g = G::new(idx);
+        let replica = r.chance(1, 2);
+        let n = r.range(4, 24) as usize;
+        let steps = if replica {
+            gen::replica_history(&mut r, &mut g, n, 1)
+        } else {
+            let (mix, _) = gen::pick_mix(&mut r);
+            gen::writer_history(&mut r, &mut g, n, mix)
+        };
+        let mut arms = vec![
+            Arm { backend: Backend::Sim, cache: CacheMode::Off, nosparse: false },
+            Arm { backend: Backend::Sim, cache: CacheMode::Default, nosparse: false },
+            Arm { backend: Backend::Sim, cache: CacheMode::Tiny, nosparse: false },
+            Arm { backend: Backend::Memory, cache: CacheMode::Off, nosparse: false },
+            Arm { backend: Backend::Memory, cache: CacheMode::Tiny, nosparse: false },
+        ];
+        if with_disk {
+            arms.push(Arm { backend: Backend::DiskFs, cache: CacheMode::Off, nosparse: false });
+            arms.push(Arm { backend: Backend::DiskFs, cache: CacheMode::Default, nosparse: false });
+            arms.push(Arm { backend: Backend::DiskFs, cache: CacheMode::Tiny, nosparse: false });
+            arms.push(Arm { backend: Backend::DiskFs, cache: CacheMode::Off, nosparse: true });
+        }
+        let spec = ConfigSpec { key_seed: seed ^ idx, replicas: if replica { 1 } else { 0 }, steps, arms };
+        Case { prop: String::new(), family: String::new(), run: 0, body: Body::Config(spec) }
+    };
+    let families = vec![
+        Family {
+            name: "sim-memory-cache",
+            count: if quick { 500 } else { 60_000 },
+            make: Box::new(move |seed, idx| mk(seed, idx, false)),
+        },
+        Family {
+            name: "with-real-disk",
+            count: if quick { 60 } else { 3_000 },
+            make: Box::new(move |seed, idx| mk(seed, idx, true)),
+        },
+    ];
+    PropDef {
+        level: "exploration",
+        rule: "one seeded trace (C01 writer histories or C03 honest replica histories, with reopen) is executed under: SimDisk x {cache off, default cache, tiny cache of ~3 nodes}, the real random-access-memory backend x {off, tiny}, and (family with-real-disk) the real random-access-disk backend on /dev/shm x {off, default, tiny} plus once more in a second binary built without the `sparse` feature. Oracle: the op-by-op observation log (every call result and every post-step full scan) is identical across arms and the final bytes of all four files of every node are identical (length and content, holes read as zeros). distinct = case hash; non-trivial = mutating step and reopen.",
+        assumptions: vec![
+            "moka's maintenance timing is not under simulator control; it only affects which nodes are cached, which is exactly what must not be observable; replay of a C14 failure is 'same trace, same configuration', not bit-exact cache state",
+            "the disk arm runs real tokio file I/O on tmpfs",
+        ],
+        families,
+    }
+}
+
 pub fn prop_def(prop: &str, tier: &str) -> Option<PropDef> {
     match prop {
+        "C14" => Some(c14(tier)),
+        "C15" => Some(c15(tier)),
         "C05" => Some(c05(tier)),
         "C06" => Some(c06(tier)),
         "C04" => Some(c04(tier)),
